@@ -255,3 +255,37 @@ Proof.
   - discriminate.
 Qed.
 End Ret.
+
+(* ---- one call at a CInv position of a valid frame ---- *)
+Section Call.
+Variable bdec : list byte -> list byte -> option (list byte).
+Variable dict : list byte.
+
+Theorem call_hint_within_frame : forall s src cap o p O g res l' h,
+  o_skip o = false -> wf s -> BInv bdec false dict p O s -> bytes_ok src = true -> 0 <= cap ->
+  frame_decode bdec false dict (p ++ src ++ g) = Some res ->
+  run bdec (call_fuel src) o (mkL (set_skip s (d_skip s || o_skip o)) src 0 [] cap) = (l', FStop h) ->
+  0 < h ->
+  d_stage (l_s l') <> StoreFrameHeader -> in_skip (d_stage (l_s l')) = false ->
+  snd (decompress bdec s src cap o) = mkR (l_used l') (zlen (l_out l')) (l_out l') h false /\
+  h <= zlen src + zlen g - l_used l'.
+Proof.
+  intros s src cap o p O g res l' h Ho Hwf HB Hb Hc G HR Hh Hst Hsk.
+  pose proof (call_chunk bdec false dict s src cap o p O Ho Hwf HB Hb Hc) as CC. cbv zeta in CC.
+  unfold decompress in *. rewrite HR in *. cbn [fst snd r_ret r_out r_consumed] in CC.
+  split; [reflexivity|].
+  destruct (CC ltac:(right; exists g, res; exact G)) as [_ CCp].
+  destruct (CCp ltac:(lia)) as (x & rest & E1 & E2 & Hwf' & HH).
+  replace (h =? 0) with false in HH by lia.
+  destruct (run_hint bdec _ _ _ _ _ HR) as [Z0 | [Sk | Eh]]; [lia|congruence|].
+  destruct HH as [C | (Pn & _ & AS)].
+  - rewrite Eh.
+    assert (G' : frame_decode bdec false dict ((p ++ x) ++ rest ++ g) = Some res).
+    { rewrite <- app_assoc. rewrite (app_assoc x rest g), <- E1. exact G. }
+    pose proof (hint_state_bound bdec dict (p ++ x) _ (l_s l') (rest ++ g) res C Hwf' G' Hst) as B.
+    rewrite zlen_app in B. rewrite E1, zlen_app. lia.
+  - (* still at the very start of the frame: the stage is GetFrameHeader, which never stops with a hint *)
+    destruct AS as (St & _). rewrite Eh. unfold stop_hint. rewrite St. pose proof (zlen_nonneg g).
+    pose proof (zlen_nonneg src). rewrite Eh in Hh. unfold stop_hint in Hh. rewrite St in Hh. lia.
+Qed.
+End Call.
